@@ -23,8 +23,10 @@ impl Frame {
 }
 // The inner body with a ghost history: every DATA byte it has delivered so far, whether it reported its end,
 // how often it was polled, and how many DATA frames / trailers frames / errors it has delivered.
+// `left`: the (ghost) number of frames the body will still deliver - a body is finite (A-httpbody-03); it is what makes "every
+// poll completes" (C07) a checkable statement: each turn of the decoding loop must take a frame of the body or enter the error state
 pub struct Body { pub received: Ghost<Seq<u8>>, pub ended: Ghost<bool>, pub polls: Ghost<nat>,
-    pub data_frames: Ghost<nat>, pub trailer_frames: Ghost<nat>, pub errors: Ghost<nat> }
+    pub data_frames: Ghost<nat>, pub trailer_frames: Ghost<nat>, pub errors: Ghost<nat>, pub left: Ghost<nat> }
 pub open spec fn body_step(pre: Body, post: Body, r: Poll<Option<Result<Frame, Status>>>) -> bool {
     &&& post.polls@ == pre.polls@ + 1
     &&& match r {
@@ -35,6 +37,7 @@ pub open spec fn body_step(pre: Body, post: Body, r: Poll<Option<Result<Frame, S
     &&& post.data_frames@ == pre.data_frames@ + (if r matches Poll::Ready(Some(Ok(Frame::Data(_)))) { 1nat } else { 0nat })
     &&& post.trailer_frames@ == pre.trailer_frames@ + (if r matches Poll::Ready(Some(Ok(Frame::Trailers(_)))) { 1nat } else { 0nat })
     &&& post.errors@ == pre.errors@ + (if r matches Poll::Ready(Some(Err(_))) { 1nat } else { 0nat })
+    &&& (if r matches Poll::Ready(Some(_)) { post.left@ < pre.left@ } else { post.left@ == pre.left@ })
 }
 pub struct Pin<P> { pub p: P }
 impl<'a> Pin<&'a mut Body> {
@@ -329,6 +332,7 @@ impl Status {
          body_start='        broadcast use lemma_add_skip, lemma_add_take;',
          ensures=[
              Clause('PF_body_polled_once', 'body_step(old(self).body, final(self).body, Poll::Ready(None)) || final(self).body.polls@ == old(self).body.polls@ + 1', ['C07']),
+             Clause('PF_a_buffered_frame_cost_a_frame_of_the_body', 'final(self).body.left@ <= old(self).body.left@ && (r matches Poll::Ready(Ok(Some(_))) ==> final(self).body.left@ < old(self).body.left@)', ['C07']),
              Clause('PF_data_appended',
                     '''r matches Poll::Ready(Ok(Some(_))) ==> final(self).state == old(self).state && final(self).wf()
                 && final(self).same_config(old(self))
@@ -421,7 +425,6 @@ impl Status {
     STEP_TEXT = ' &&& '.join('(%s)' % as_step(c) for c in (CL_I, CL_H, CL_M1, CL_P1, CL_N1, CL_F1, CL_F2))
     u.fn(D, 'poll_next', within='impl<T> Stream for Streaming<T>',
          header='impl<T, DEC: Decoder<Item = T, Error = Status>> Streaming<T, DEC> {', close=True,
-         attrs=['#[verifier::exec_allows_no_decreases_clause]'],
          sig_edits=[lambda t: t.sub_code('R9', r'Self::Item', 'Result<T, Status>')],
          closures={0: dict(params='e: Status', ret='(x: Result<T, Status>)', ensures=['x == Err::<T, Status>(e)'])},
          requires=['old(self).inner.wf()'],
@@ -430,12 +433,15 @@ impl Status {
              'self.inner.same_config(&old(self).inner)',
              'forall|p: Seq<u8>| self.decoder.dec(p) == old(self).decoder.dec(p)',
              'old(self).inner.state is Error ==> *self == *old(self)',
+             'self.inner.body.left@ <= old(self).inner.body.left@',
              'self.inner.body.received@.len() >= old(self).inner.body.received@.len()',
              'self.inner.body.received@.take(old(self).inner.body.received@.len() as int) == old(self).inner.body.received@',
              '!(self.inner.state is Error) ==> self.inner.unparsed() == old(self).inner.unparsed() + self.inner.body.received@.skip(old(self).inner.body.received@.len() as int)',
              '!(old(self).inner.state is Error) && self.inner.state is Error ==> (self.inner.state matches State::Error(Some(_)))',
              '!(old(self).inner.state is Error) && self.inner.state is Error ==> !complete(old(self).inner.unparsed() + self.inner.body.received@.skip(old(self).inner.body.received@.len() as int)) && ((old(self).inner.unparsed() + self.inner.body.received@.skip(old(self).inner.body.received@.len() as int)).len() < 5 || header_error(old(self).inner.unparsed() + self.inner.body.received@.skip(old(self).inner.body.received@.len() as int), self.inner.encoding, self.inner.limit()) is None)',
-         ])},
+         ],
+             # every poll completes: each turn takes a frame of the body or enters the error state
+             decreases=['self.inner.body.left@', '(if self.inner.state is Error { 0int } else { 1int })'])},
          body_start='        broadcast use lemma_add_skip, lemma_add_take, lemma_take_all;',
          hints=[('before', 'match self.decode_chunk() {', 'let ghost r1 = self.inner.body.received@; let ghost u1 = self.inner.unparsed();'),
                 ('replace', 'Ok(Some(())) => {}', '''Ok(Some(())) => { proof {
